@@ -39,9 +39,10 @@ theorem matchArm_of_mem : ∀ {arms : List (List Nat × Nat)} {key : List Nat} {
         rw [heq]
         exact List.mem_map.mpr ⟨(key, h), hr, rfl⟩
       have ih := matchArm_of_mem hnd.2 hr
+      have hb : (a.1 == key) = false := by simp [hne]
       unfold matchArm at ih ⊢
-      rw [List.find?_cons]
-      simp [hne, ih]
+      simp only [List.find?_cons, hb]
+      exact ih
 
 /-! ## walk -/
 
@@ -174,7 +175,7 @@ theorem zipIdx_map_const {α β : Type} (g : α → β) : ∀ (l : List α) (k :
 
 theorem steps_failures (ix : Ix) (plan : FaultPlan) (data : List Nat) (naccts : Nat) :
     (steps ix plan data naccts).map (·.2) = failures ix plan data naccts := by
-  simp only [steps, failures, List.map_cons, List.map_append, loopSteps_failures, List.map_nil,
+  simp only [steps, failures, List.map_cons, List.map_append, loopSteps_failures,
     List.append_nil]
   rw [zipIdx_map_const (fun f => planned plan .validate f),
     zipIdx_map_const (fun f => planned plan .cleanup f)]
@@ -182,8 +183,7 @@ theorem steps_failures (ix : Ix) (plan : FaultPlan) (data : List Nat) (naccts : 
 
 theorem steps_eq_zip (ix : Ix) (plan : FaultPlan) (data : List Nat) (naccts : Nat) :
     steps ix plan data naccts = (expected ix data).zip (failures ix plan data naccts) := by
-  rw [← steps_events ix plan data naccts, ← steps_failures ix plan data naccts]
-  exact (List.zip_map_fst_snd _).symm
+  exact List.zip_of_prod (steps_events ix plan data naccts) (steps_failures ix plan data naccts)
 
 /-! ## each step at most once -/
 
@@ -203,7 +203,7 @@ theorem expected_nodup (ix : Ix) (data : List Nat) (h : (names ix.fields).Nodup)
   have h2 := nodup_map_event .validate (order_nodup h)
   have h3 := nodup_map_event .cleanup h
   simp only [List.nodup_append, List.nodup_cons, List.mem_append, List.mem_map, List.mem_cons,
-    List.mem_singleton, List.not_mem_nil, List.nodup_nil, not_false_eq_true, true_and, and_true]
+    List.not_mem_nil, List.nodup_nil, not_false_eq_true, true_and, and_true, or_false]
   refine ⟨⟨⟨⟨h1, ?_⟩, h2, ?_⟩, ?_⟩, h3, ?_⟩
   · intro a ha b hb
     obtain ⟨f, _, rfl⟩ := hb
